@@ -21,11 +21,20 @@ def build_all(mins):
     jobs.append((2, "log_driver_late_min2", ["-DVERIF_LATE_MIN=" + SEVNAMES[2]], None))
     if shutil.which("g++") and vc.CXX != "g++":
         jobs.append((0, "log_driver_gxx_min0", ["-DNITRO_LOG_MIN_SEVERITY=" + SEVNAMES[0]], "g++"))
+    def one(j):
+        # the six regular builds must compile; the two extra ones are optional (skipped with a log line if they do not)
+        if j[1].startswith("log_driver_min"):
+            return vc.build_driver(j[1], ["log_driver.cpp"], flags=j[2], cxx=j[3])
+        r = vc.build_driver(j[1], ["log_driver.cpp"], flags=j[2], cxx=j[3], allow_fail=True)
+        if r[0] is None:
+            vc.log("%s does not compile against this tree, left out: %s" % (j[1], " ".join(l for l in r[1].splitlines() if "error" in l)[:300]))
+        return r[0]
     with ThreadPoolExecutor(max_workers=8) as ex:
-        built = list(ex.map(lambda j: vc.build_driver(j[1], ["log_driver.cpp"], flags=j[2], cxx=j[3]), jobs))
+        built = list(ex.map(one, jobs))
     exes = {}
     for j, e in zip(jobs, built):
-        exes.setdefault(j[0], []).append(e)
+        if e is not None:
+            exes.setdefault(j[0], []).append(e)
     return exes
 
 
